@@ -92,8 +92,8 @@ var c22ExtFixed = []string{
 	"f := ~lambda() {}",
 }
 
-// sources whose printed form is known not to say what was parsed (see c25.go); kept apart so that
-// they are reported once each
+// gomacro-only forms that are neither valid Go nor built from valid Go (macro declarations, block
+// expressions): C22 checks their wrappers; C25 counts and skips them (c25OutOfScope)
 var c22ExtFixedDecl = []string{
 	"macro second(a, b, c ast.Node) ast.Node { return b }",
 	"~macro m2(x ast.Node) (ast.Node, ast.Node) { return x, x }",
